@@ -252,4 +252,19 @@ theorem Safe.bind [DecidableEq K] {S : Type} {free : K → Prop} {good : K → V
     simp only [Prog.bind]
     exact Safe.writeFree hfr hg (ih hf)
 
+/-- **sequences of operations**: if every program of the list is safe from ANY phases (each for its own acceptance
+predicate), the thread that runs them one after the other is safe, and its list of results is accepted pointwise -/
+theorem Safe.seqList [DecidableEq K] {free : K → Prop} {good : K → V → Prop} {c1 : K → V} :
+    ∀ (aps : List ((R → Prop) × Prog K V R)),
+    (∀ ap ∈ aps, ∀ ph : Phases K, Safe free good c1 ap.1 ph ap.2) →
+    ∀ ph : Phases K, Safe free good c1 (accAll (aps.map (·.1))) ph (Prog.seqList (aps.map (·.2)))
+  | [], _, ph => Safe.ret trivial
+  | ap :: aps, h, ph => by
+    simp only [List.map_cons, Prog.seqList]
+    refine Safe.bind (h ap (List.mem_cons_self ..) ph) _ ?_
+    intro r ph' hr _
+    refine Safe.bind (Safe.seqList aps (fun ap' hm => h ap' (List.mem_cons_of_mem _ hm)) ph') _ ?_
+    intro rs ph'' hrs _
+    exact Safe.ret ⟨hr, hrs⟩
+
 end Threads
